@@ -1,4 +1,7 @@
-import Csverif.Proofs.StateItem
+import Csverif.Proofs.StateMovOps
+import Csverif.Proofs.StateTotal
+import Csverif.Proofs.StateLoad
+import Csverif.Proofs.StateKeys
 /-
 C11 — sync-state index integrity (cloudsync/sync/state.py, `SyncState`'s index machinery).
 
@@ -17,47 +20,59 @@ counterexample that the harness replays on the real `SyncState`):
 
   * "an entry that carries a path on a side carries an id on it"      — `cex_path_without_id`
   * "every entry of the pending set has a change flag with an id"      — `cex_pending_without_id`
-  * the hook does not always terminate: `cex_kids_mutual_recursion` (two directory entries)
+  * "`__setitem__` keeps the invariant whatever the receiving side is" — `cex_setitem_folder_kid_takes_id`
 
-Repaired in the code (fix A = `forget_oid`, fix B = direct `_changed = 0` write) and now theorems instead of counterexamples:
-`forget_total`, `forget_inv` (no KeyError, no empty bucket, the forgotten entry leaves the pending set),
-`setattr_changed_total` (the `changed` rule no longer recurses), `fixed_*` (the old failing inputs, kernel-checked;
-`fixed_reload_stale_slot` for the loader repair of commit eec8a73).
+Repaired in the code and now theorems instead of counterexamples:
+  fix A (`forget_oid`): `forget_total`, `forget_inv` (no KeyError, no empty bucket, the forgotten entry leaves the pending set);
+  fix B (direct `_changed = 0` write): `setattr_changed_total` (the `changed` rule no longer recurses);
+  fix C (`_kids_moving` stack in `_update_kids`: a folder whose kids are being moved is not moved again by a nested
+  `_update_kids`): the hook terminates (`setattr_total`) and folder moves need no guard (`setattr_inv`);
+  commit eec8a73 (loader): `reload_index_inv`;
+  `fixed_*`: the old failing inputs, kernel-checked.
 
 What is proved (no size or step bound; all quantifiers are over arbitrary states, entries, values and configurations):
 
-  * `init_inv`                         the empty state satisfies `IndexInv`
-  * `setattr_inv` (`sideSet_inv`)      every hooked attribute assignment `ent[side].<attr> = v` — path, oid, changed, exists,
-                                       hash, sync_hash, sync_path, otype, size, mtime — preserves `IndexInv`, on a normal return and
-                                       on every exception except fuel exhaustion (RecursionError), under `PathGuard`
-                                       (a directory entry that is moved has no *directory* entries strictly beneath its old path;
-                                       its non-directory kids are moved with it: `kidsLoop_tr`)
+  * `init_inv`                         the empty state satisfies `IndexInv` (= the clauses above ∧ `_kids_moving` is empty)
+  * `setattr_inv` (`sideSet_inv`,      every hooked attribute assignment `ent[side].<attr> = v` — path, oid, changed, exists, hash,
+     `good_all`)                       sync_hash, sync_path, otype, size, mtime — on any entry, folders with any subtree included,
+                                       preserves `IndexInv`, on a normal return and on every exception except fuel exhaustion: NO guard
+  * `setattr_total` (`sideSet_total`)  … and with `#entries + 3` levels of fuel the outcome is never fuel exhaustion (termination of
+                                       `_update_kids`: it nests at most once per entry)
   * `setattr_oid_total`                `ent[side].oid = v` (including the recursive ousting of previous owners) needs at most
                                        two levels of recursion and raises nothing
   * `setattr_changed_total`            `ent[side].changed = v` needs one level and raises nothing (fix B)
   * `step_inv` / `run_inv`             the state-level operations — hooked assignments, `ignored`/`priority`/`punt`/`unignore`,
-                                       `mark_changed`, `SideState.clear`, `update_entry` (guard `KidsLeaves`), raw events `update`
-                                       for both id styles (guard `FlatK` and "no merge-copy", `mergeCopies = false`), `split`
-                                       (no guard), `__setitem__` (guard `LeafAt`: the receiving side is not a directory with a path) —
+                                       `mark_changed`, `SideState.clear`, `update_entry`, raw events `update` for both id styles with
+                                       every branch (the merge-copy branch `ent[side] = prior_ent[side]` included), `split`, `reload`
+                                       (no guard), `__setitem__` (guard `SetOk`: the receiving side is not a folder with a path, or its
+                                       ids are not paths; the same guard, `UpdGuard`, for the side that the merge-copy branch of
+                                       `update` overwrites; without the guard: `cex_setitem_folder_kid_takes_id`) —
                                        preserve `IndexInv` under `OpGuard`, hence every guarded sequence does (induction)
+  * `reload_index_inv` (`load_inv`)    the loader establishes `IndexInv` from what `storage_commit` of an `IndexInv` state writes, and
+                                       the rebuilt pending set is EXACTLY the set of entries with a change flag on a side with an id
+  * `live_index_ok`                    `IndexInv` in the words of the C08 layer's hypothesis `LiveIndexOK` (all of it except the
+                                       "only flagged entries are pending" half of its `pending` clause, which is false of live states)
+  * `keys_unique` / `step_keys`        the keys of all dictionaries (id index, path index, buckets) are pairwise different in every
+                                       reachable state — every operation, every outcome, no guard — so the first-match lookups used
+                                       in the clauses are dictionary lookups (`lookup_is_membership`, `slot_is_membership`)
   * `forget_total` / `forget_inv`      `forget_oid` raises nothing; afterwards every clause of `IndexInv` holds with the forgotten entry
                                        side exempt from "found under its id / (path, id)" (it keeps its `oid`/`path` fields by design),
                                        that entry has no slot left on the side and is not pending
 
-NOT proved (model + differential tie only; stated here so that nothing is claimed silently):
-  * preservation by the merge-copy branch of `update` (state.py:1155-1157; it calls `__setitem__`, which is proved on its own, but
-    the guard of the following path assignment is not carried across it) and by `__setitem__` onto a directory side that has a path
-  * moves of a directory that has directory entries beneath it (beyond `PathGuard`); termination of `_update_kids`
-  * uniqueness of dictionary keys (the clauses are stated through first-match lookups `AL.get` / `St.slot`)
-  * the loader (`reload`): modelled and compared, no preservation theorem (after commit eec8a73 no counterexample is known either)
+NOT proved (stated here so that nothing is claimed silently):
+  * termination of whole operations (`update`, `split`, …) — only of the hook (`setattr_total`); `step_inv` excludes fuel
+    exhaustion by hypothesis
+  * `__setitem__` onto a folder side with a path on a path-id side is outside `SetOk` because the statement is false there for an
+    arbitrary `info_path` oracle (`cex_setitem_folder_kid_takes_id`, replayed on the real code); no hypothesis on the oracle under
+    which it would hold has been formulated (for a consistent provider, id = path, the clash cannot arise)
 -/
 namespace CS.State
 
-/-- the index invariant at operation boundaries -/
-abbrev IndexInv := Inv
+/-- the index invariant at operation boundaries: the index clauses, and no folder move in progress (`_kids_moving` empty) -/
+def IndexInv (st : St) : Prop := Inv st ∧ st.moving = []
 
 theorem init_inv : IndexInv init := by
-  refine ⟨⟨?_, ?_, ?_, ?_, ?_, ?_, ?_⟩, ?_⟩
+  refine ⟨⟨⟨?_, ?_, ?_, ?_, ?_, ?_, ?_⟩, ?_⟩, rfl⟩
   · intro s k i h; cases s <;> simp [init, St.oids, St.ix] at h
   · intro s; cases s <;> rfl
   · intro s k i h; cases s <;> simp [init, St.oids, St.ix] at h
@@ -68,11 +83,13 @@ theorem init_inv : IndexInv init := by
   · intro i ⟨s, h1, _⟩
     rw [changed_oob init i s (by simp [init])] at h1; cases h1
 
-/-- hooked attribute assignment: `IndexInv` is preserved on every outcome except fuel exhaustion -/
+/-- hooked attribute assignment (any attribute, any entry, directories with any subtree): `IndexInv` is preserved on every
+    outcome except fuel exhaustion — no guard -/
 theorem setattr_inv (cfg : Cfg) (fuel : Nat) (e : Nat) (s : Sd) (fv : FV) (st : St) (hi : IndexInv st)
-    (hlt : e < st.ents.length) (hg : PathGuard cfg st e s fv)
+    (hlt : e < st.ents.length)
     (hrec : (sideSet cfg fuel e s fv st).1 ≠ .error .recursion) : IndexInv (sideSet cfg fuel e s fv st).2 := by
-  have := sideSet_inv cfg fuel e s fv st hi hlt hg st rfl
+  have := sideSet_inv cfg fuel e s fv st hi.1 hlt (by rw [hi.2]; simp) st rfl
+  refine ⟨?_, (sideSet_moving cfg fuel e s fv st).trans hi.2⟩
   cases hr : (sideSet cfg fuel e s fv st).1 with
   | ok a => exact (this.1 a hr).1
   | error x => exact (this.2 x hr (fun hx => hrec (hx ▸ hr))).1
@@ -81,10 +98,19 @@ theorem setattr_inv (cfg : Cfg) (fuel : Nat) (e : Nat) (s : Sd) (fv : FV) (st : 
 theorem setattr_oid_total (cfg : Cfg) (n : Nat) (e : Nat) (s : Sd) (v : Oid) (st : St) (hi : IndexInv st)
     (hlt : e < st.ents.length) :
     (sideSet cfg (n + 2) e s (.oid v) st).1 = .ok () ∧ IndexInv (sideSet cfg (n + 2) e s (.oid v) st).2 := by
-  have := sideSet_oid_spec (oustOk_sideSet_succ cfg n) cfg hi.1 hi.2 e s v hlt
+  have := sideSet_oid_spec (oustOk_sideSet_succ cfg n) cfg hi.1.1 hi.1.2 e s v hlt
   rcases this with ⟨hf, _⟩ | ⟨hok, h1, h2, _⟩
   · exact hf.elim
-  · exact ⟨hok, h1, h2⟩
+  · exact ⟨hok, ⟨h1, h2⟩, (sideSet_moving cfg (n + 2) e s (.oid v) st).trans hi.2⟩
+
+/-- **termination** (fix C): from an operation boundary, `#entries + 3` levels of the hook are enough for any assignment to any
+    entry — `_update_kids` nests at most once per entry — so the outcome is never the model's RecursionError and `IndexInv` holds
+    afterwards without any hypothesis about the outcome -/
+theorem setattr_total (cfg : Cfg) (fuel : Nat) (e : Nat) (s : Sd) (fv : FV) (st : St) (hi : IndexInv st)
+    (hlt : e < st.ents.length) (hf : st.ents.length + 3 ≤ fuel) :
+    (sideSet cfg fuel e s fv st).1 ≠ .error .recursion ∧ IndexInv (sideSet cfg fuel e s fv st).2 :=
+  have h := sideSet_total cfg fuel e s fv st hi.1 hlt hi.2 hf
+  ⟨h, setattr_inv cfg fuel e s fv st hi hlt h⟩
 
 /-- `ent[side].changed = v` with one level of fuel: total (fix B removed the mutual recursion of the two sides) -/
 theorem setattr_changed_total (cfg : Cfg) (n : Nat) (e : Nat) (s : Sd) (v : Chg) (st : St) :
@@ -100,20 +126,25 @@ theorem Tr.run_inv {α} {P : St → Prop} {m : M α} {Q : α → St → Prop} {I
   | ok a => exact hQ a _ (this.1 a hr)
   | error x => exact this.2 x hr (fun hx => hrec (hx ▸ hr))
 
-/-- the guard under which an operation is covered by `step_inv`:
-    a hooked path assignment must satisfy `PathGuard`; the operations that are not yet covered are excluded -/
+/-- the guard under which an operation is covered by `step_inv`.  After fix C the only guards left are about `__setitem__`
+    (`SetOk`): the entry side it replaces must be a leaf (`LeafAt`: not a directory, or without a path) or lie on a side whose
+    ids are not paths (`oid_is_path = False`) — directly, or for the prior entry's other side in the merge-copy branch of `update`
+    (`UpdGuard`).  Without it the statement is false: `cex_setitem_folder_kid_takes_id`.  `forget_oid` has its own theorem (`forget_inv`: the
+    forgotten side is exempt afterwards). -/
 def OpGuard (cfg : Cfg) (st : St) : Op → Prop
-  | .setSide e s fv => PathGuard cfg st e s fv
-  | .updateEntry e s _ => KidsLeaves cfg st s e
-  | .update s _ a prior => FlatK cfg s st ∧ mergeCopies st s a prior = false
-  | .split _ => True
-  | .setItem d sd _ _ => LeafAt st d sd
-  | .tick _ | .setIgnored _ _ | .setPriority _ _ | .punt _ | .unignore _ _ | .commit | .clear _ _ | .mark _ _ => True
-  | _ => False
+  | .update s _ _ prior => UpdGuard cfg st s prior
+  | .setItem d sd _ _ => SetOk cfg st d sd
+  | .forget _ _ => False
+  | _ => True
 
 /-- every covered operation preserves `IndexInv`, on a normal return and on every exception except fuel exhaustion -/
 theorem step_inv (cfg : Cfg) (fuel : Nat) (op : Op) (st : St) (hi : IndexInv st) (hg : OpGuard cfg st op)
     (hrec : (step cfg fuel op st).1 ≠ .error .recursion) : IndexInv (step cfg fuel op st).2 := by
+  by_cases hne : op = .reload
+  · subst hne
+    have hst : step cfg fuel .reload st = (.ok (), reload st) := rfl
+    rw [hst]
+    exact ⟨(reload_inv st hi.1).1, (reload_inv st hi.1).2.1⟩
   have key : Tr (fun st' => st' = st) (step cfg fuel op) (fun _ st' => Inv st') Inv := by
     unfold step
     apply Tr.getSt_bind; intro st0
@@ -122,28 +153,28 @@ theorem step_inv (cfg : Cfg) (fuel : Nat) (op : Op) (st : St) (hi : IndexInv st)
     rintro rfl
     apply Tr.ite
     · intro _
-      exact Tr.bind (R := fun _ _ => False) (Tr.throw (fun _ st' ⟨_, h⟩ => by rw [h]; exact hi)) (fun _ => Tr.false_pre (fun _ h => h))
+      exact Tr.bind (R := fun _ _ => False) (Tr.throw (fun _ st' ⟨_, h⟩ => by rw [h]; exact hi.1)) (fun _ => Tr.false_pre (fun _ h => h))
     · intro hb
       have hrefs : ∀ i ∈ op.refs, i < st0.ents.length := by
         intro i hi'
         have : ¬ (i ≥ st0.ents.length) := fun hge => hb (List.any_eq_true.2 ⟨i, hi', by simpa using hge⟩)
         omega
       have hIL : ∀ st', (st' = st0 ∧ st' = st0) → InvL st0.ents.length st' :=
-        fun st' ⟨h, _⟩ => by rw [h]; exact ⟨hi, rfl⟩
+        fun st' ⟨h, _⟩ => by rw [h]; exact ⟨hi.1, rfl, hi.2⟩
       cases op with
       | tick ms => exact Tr.modify (fun st' h => ((hIL st' h).plain (plainRel_now ..)).1)
       | commit => exact Tr.modify (fun st' h => ((hIL st' h).plain (plainRel_dirty ..)).1)
       | setSide e s fv =>
         have he : e < st0.ents.length := hrefs e (by simp [Op.refs])
-        exact (sideSet_inv cfg fuel e s fv st0 hi he hg).conseq (fun _ h => h.1) (fun _ _ h => h.1) (fun _ h => h.1)
+        exact (sideSet_inv cfg fuel e s fv st0 hi.1 he (by rw [hi.2]; simp)).conseq (fun _ h => h.1) (fun _ _ h => h.1) (fun _ h => h.1)
       | setIgnored e v => exact Tr.modify (fun st' h => (ignoredState_inv st' e v _ (hIL st' h)).1)
       | setPriority e v =>
         have he : e < st0.ents.length := hrefs e (by simp [Op.refs])
-        exact (setPriority_tr cfg fuel noX e v st0).conseq (fun st' ⟨h, _⟩ => ⟨h, h ▸ hi.1, h ▸ hi.2, h ▸ he⟩)
+        exact (setPriority_tr cfg fuel noX e v st0).conseq (fun st' ⟨h, _⟩ => ⟨h, h ▸ hi.1.1, h ▸ hi.1.2, h ▸ he⟩)
           (fun _ _ h => ⟨h.2.1, h.2.2⟩) (fun _ h => h.elim)
       | punt e =>
         have he : e < st0.ents.length := hrefs e (by simp [Op.refs])
-        exact (setPriority_tr cfg fuel noX e _ st0).conseq (fun st' ⟨h, _⟩ => ⟨h, h ▸ hi.1, h ▸ hi.2, h ▸ he⟩)
+        exact (setPriority_tr cfg fuel noX e _ st0).conseq (fun st' ⟨h, _⟩ => ⟨h, h ▸ hi.1.1, h ▸ hi.1.2, h ▸ he⟩)
           (fun _ _ h => ⟨h.2.1, h.2.2⟩) (fun _ h => h.elim)
       | unignore e r =>
         refine Tr.bind (R := fun _ st' => InvL st0.ents.length st') ?_ (fun _ => ?_)
@@ -156,10 +187,10 @@ theorem step_inv (cfg : Cfg) (fuel : Nat) (op : Op) (st : St) (hi : IndexInv st)
         have he : e < st0.ents.length := hrefs e (by simp [Op.refs])
         exact (markChanged_tr cfg fuel s e _ he).conseq hIL (fun _ _ h => h.1) (fun _ h => h)
       | update s ot a prior =>
-        exact (update_tr cfg fuel s ot a prior st0.ents.length).pre (fun st' h => by rw [h.1]; exact ⟨⟨⟨hi, rfl⟩, hg.1⟩, hg.2⟩)
+        exact (update_tr cfg fuel s ot a prior st0.ents.length).pre (fun st' h => by rw [h.1]; exact ⟨⟨hi.1, rfl, hi.2⟩, hg⟩)
       | updateEntry e s a =>
         have he : e < st0.ents.length := hrefs e (by simp [Op.refs])
-        exact (updateEntry_tr cfg fuel e s a st0.ents.length he).pre (fun st' h => by rw [h.1]; exact ⟨⟨hi, rfl⟩, hg⟩)
+        exact (updateEntry_tr cfg fuel e s a st0.ents.length he).pre (fun st' h => hIL st' ⟨h.1, h.1⟩)
       | split e =>
         have he : e < st0.ents.length := hrefs e (by simp [Op.refs])
         refine Tr.bind (R := fun _ st' => InvL (st0.ents.length + 1) st') ((split_tr cfg fuel e st0.ents.length he).pre hIL)
@@ -167,11 +198,12 @@ theorem step_inv (cfg : Cfg) (fuel : Nat) (op : Op) (st : St) (hi : IndexInv st)
       | setItem d sd sr ss =>
         have hd : d < st0.ents.length := hrefs d (by simp [Op.refs])
         have hs : sr < st0.ents.length := hrefs sr (by simp [Op.refs])
-        exact (setItem_tr cfg fuel d sd sr ss st0.ents.length hd hs).conseq (fun st' h => ⟨hIL st' h, by rw [h.1]; exact hg⟩)
+        exact (setItem_trG cfg fuel d sd sr ss st0.ents.length hd hs).conseq (fun st' h => ⟨hIL st' h, by rw [h.1]; exact hg⟩)
           (fun _ _ h => h.1) (fun _ h => h)
       | forget _ _ => exact hg.elim
-      | reload => exact hg.elim
-  exact key.run_inv (fun _ _ h => h) st rfl hrec
+      | reload => exact absurd rfl hne
+  have key2 := key.with_mov (mov_step cfg fuel op hne) []
+  exact key2.run_inv (fun _ _ h => h) st ⟨rfl, hi.2⟩ hrec
 
 /-- sequences: if every operation meets its guard in the state it is applied to and none runs out of fuel,
     `IndexInv` holds after every prefix -/
@@ -186,6 +218,58 @@ theorem run_inv (cfg : Cfg) (fuel : Nat) : ∀ (ops : List Op) (st : St), IndexI
 
 theorem run_inv_init (cfg : Cfg) (fuel : Nat) (ops : List Op) (h : Guarded cfg fuel ops init) : IndexInv (run cfg fuel ops init) :=
   run_inv cfg fuel ops init init_inv h
+
+/-! ### the loader -/
+
+/-- `storage_commit` + a new `SyncState` over the same storage (`reload`): the rebuilt state satisfies `IndexInv`, and its pending
+    set is *exactly* the set of entries with a change flag on a side that has an id (in a live state only ⊇ holds:
+    `cex_pending_without_id`) -/
+theorem reload_index_inv (st : St) (hi : IndexInv st) :
+    IndexInv (reload st) ∧
+    ∀ i, i ∈ (reload st).cs ↔ ∃ s, ((reload st).side i s).oid ≠ none ∧ ((reload st).side i s).changed.truthy = true :=
+  ⟨⟨(reload_inv st hi.1).1, (reload_inv st hi.1).2.1⟩, (reload_inv st hi.1).2.2⟩
+
+/-- C11's invariant in the words of the C08 layer's hypothesis `LiveIndexOK` (lean/Csverif/Props/C08.lean): the id index
+    returns exactly the entry that carries the id, nothing under `None`, and every entry with a change flag on a side that has a
+    (truthy) id is pending.  The converse of the last clause — "every pending entry has such a flag" — is part of `LiveIndexOK`
+    but FALSE of live states (`cex_pending_without_id`); it holds after a reload (`reload_index_inv`). -/
+theorem live_index_ok (st : St) (hi : IndexInv st) :
+    (∀ s k i, st.lookupOid s k = some i → i < st.ents.length ∧ (st.side i s).oid = k) ∧
+    (∀ s i, (st.side i s).oid ≠ none → st.lookupOid s (st.side i s).oid = some i) ∧
+    (∀ s, st.lookupOid s none = none) ∧
+    (∀ i, (∃ s, (st.side i s).changed.truthy = true ∧ truthyS (st.side i s).oid = true) → i ∈ st.cs) :=
+  ⟨fun s k i h => ⟨hi.1.1.bnd s k i h, hi.1.1.oidSlot s k i h⟩, fun s i ho => hi.1.1.byOid i s (fun h => h) ho,
+   fun s => hi.1.1.oidKey s, hi.1.2⟩
+
+/-! ### dictionary keys are unique -/
+
+/-- the keys of the id indexes, of the path indexes and of every path bucket are pairwise different -/
+abbrev KeysUnique := KeysOk
+
+/-- every operation keeps the keys unique — on every outcome, fuel exhaustion included, no guard, `forget_oid` and `reload` included -/
+theorem step_keys (cfg : Cfg) (fuel : Nat) (op : Op) (st : St) (h : KeysUnique st) : KeysUnique (step cfg fuel op st).2 :=
+  (kp_step cfg fuel op).apply st h
+
+/-- … hence they are unique in every state the model reaches from the empty state -/
+theorem keys_unique (cfg : Cfg) (fuel : Nat) (ops : List Op) : KeysUnique (run cfg fuel ops init) :=
+  run_keysOk cfg fuel ops init keysOk_init
+
+/-- so the first-match lookups through which `IndexInv` is stated are dictionary lookups: `lookup_oid` … -/
+theorem lookup_is_membership (st : St) (h : KeysUnique st) (s : Sd) (k : Oid) (i : Nat) :
+    st.lookupOid s k = some i ↔ (k, i) ∈ st.oids s := AL.get_iff_mem (h s).1 k i
+
+/-- … and the `(path, id)` slot -/
+theorem slot_is_membership (st : St) (h : KeysUnique st) (s : Sd) (p : Option Path.Str) (k : Oid) (i : Nat) :
+    st.slot s p k = some i ↔ ∃ b, (p, b) ∈ st.paths s ∧ (k, i) ∈ b := by
+  unfold St.slot
+  constructor
+  · intro hs
+    cases hg : AL.get (st.paths s) p with
+    | none => rw [hg] at hs; cases hs
+    | some b => rw [hg] at hs; exact ⟨b, AL.mem_of_get hg, AL.mem_of_get hs⟩
+  · rintro ⟨b, hb, hi⟩
+    rw [(AL.get_iff_mem (h s).2.1 p b).2 hb]
+    exact (AL.get_iff_mem ((h s).2.2 _ hb) k i).2 hi
 
 /-! ### `forget_oid` (fix A) -/
 
@@ -212,6 +296,7 @@ theorem forget_inv (s : Sd) (k : Oid) (st : St) (hi : IndexInv st) :
     | none => (forgetOid s k st).2 = st
     | some e => Idx (noX.add e s) (forgetOid s k st).2 ∧ Clean (forgetOid s k st).2 e s ∧ e ∉ (forgetOid s k st).2.cs ∧
         ∀ i, i ≠ e → PendE i (forgetOid s k st).2 := by
+  have hi := hi.1
   rw [forgetOid_eq]
   cases hk : AL.get (st.oids s) k with
   | none => rfl
@@ -291,11 +376,13 @@ theorem fixed_reload_stale_slot :
     (run cfg0 10 [ev .L .file "i1" (some "/a"), .reload] init).oids .R = [] := by
   decide +kernel
 
-/-- two directory entries: `e` at `/a`, `f` at `/a/b`, then `e` moves to `/a/b/c` — `_update_kids` recurses for ever
-    (RecursionError on the real code); the model is still recursing after 40 levels -/
+/-- repaired (fix C): two directory entries, `e` at `/a`, `f` at `/a/b`, then `e` moves to `/a/b/c` — `_update_kids` used to recurse
+    for ever (the two folders moved each other); now the move ends, `f` follows `e` once -/
 def ops_kids_mutual : List Op := [ev .L .dir "e" (some "/a"), ev .L .dir "f" (some "/a/b"), ev .L .dir "e" (some "/a/b/c")]
-set_option maxRecDepth 100000 in
-theorem cex_kids_mutual_recursion : outcome cfg0 40 ops_kids_mutual init = some .recursion := by decide +kernel
+theorem fixed_kids_mutual_recursion :
+    outcome cfg0 10 ops_kids_mutual init = none ∧ ((run cfg0 10 ops_kids_mutual init).side 0 .L).path = some "/a/b/c".toList ∧
+    ((run cfg0 10 ops_kids_mutual init).side 1 .L).path = some "/a/b/c/b".toList ∧ (run cfg0 10 ops_kids_mutual init).moving = [] := by
+  decide +kernel
 
 /-- the repaired self-recursion (commit f72ed8c): a folder moved beneath its own previous path ends at the new path -/
 def ops_self_nest : List Op := [ev .L .dir "o" (some "/a"), ev .L .dir "o" (some "/a/b")]
@@ -308,19 +395,28 @@ def ops_changed_rec : List Op :=
   [ev .L .file "i1" (some "/a"), .setSide 0 .R (.changed (.num 1)), .setSide 0 .L (.oid none), .setSide 0 .L (.changed .none)]
 theorem fixed_changed_recursion : outcome cfg0 10 ops_changed_rec init = none := by decide +kernel
 
+/-- FALSE: "`__setitem__` preserves `IndexInv` whatever the receiving side is".  On a path-id side (`oid_is_path`, `info_path(p).oid = p`)
+    the folder `/a` (entry 0, kid `/a/x` = entry 1) receives a side with id `/b/x` and path `/b`: the kid moves to `/b/x`,
+    `info_path` gives it the id `/b/x`, which ousts the receiving folder from the id index just before the side is installed.
+    Afterwards entries 0 and 1 both carry `/b/x` and the index knows only entry 1.  This is why `SetOk` is needed. -/
+def cfg1 : Cfg := mkCfg true true true true 0 1
+def ops_setitem_folder : List Op :=
+  [ev .L .dir "/a" (some "/a"), ev .L .file "/a/x" (some "/a/x"), ev .L .dir "/b/x" (some "/b"), .setItem 0 .L 2 .L]
+theorem cex_setitem_folder_kid_takes_id :
+    outcome cfg1 10 ops_setitem_folder init = none ∧
+    ((run cfg1 10 ops_setitem_folder init).side 0 .L).oid = some "/b/x".toList ∧
+    ((run cfg1 10 ops_setitem_folder init).side 1 .L).oid = some "/b/x".toList ∧
+    (run cfg1 10 ops_setitem_folder init).lookupOid .L (some "/b/x".toList) = some 1 := by decide +kernel
+
 def isRec {α} : Except Exc α → Bool
   | .error .recursion => true
   | _ => false
 theorem ne_rec_of {α} {r : Except Exc α} (h : isRec r = false) : r ≠ .error .recursion := by
   intro hr; rw [hr] at h; cases h
 
-theorem flatK_init (cfg : Cfg) (s : Sd) : FlatK cfg s init := by
-  intro e pr hpr
-  rw [path_oob init e s (by simp [init])] at hpr; cases hpr
-
 /-- the hypotheses are satisfiable: a raw event from the empty state meets its guard … -/
 example : Guarded cfg0 10 [ev .L .file "i1" (some "/a")] init :=
-  ⟨⟨flatK_init cfg0 .L, by decide +kernel⟩, ne_rec_of (by decide +kernel), trivial⟩
+  ⟨fun pe h => by simp [St.lookupOid, init, St.oids, St.ix] at h, ne_rec_of (by decide +kernel), trivial⟩
 
 /-- … `split` after it … -/
 example : Guarded cfg0 10 [.split 0, .setItem 0 .L 1 .L] (run cfg0 10 [ev .L .file "i1" (some "/a")] init) :=
@@ -331,5 +427,12 @@ example : Guarded cfg0 10 [.setSide 0 .L (.oid (some "x".toList)), .mark 0 .L, .
     (run cfg0 10 [ev .L .file "i1" (some "/a")] init) := by
   refine ⟨trivial, ne_rec_of (by decide +kernel), trivial, ne_rec_of (by decide +kernel), trivial,
     ne_rec_of (by decide +kernel), trivial⟩
+
+/-- … and a folder with a folder beneath it moves, then the state is reloaded: nothing but the vacuous event guard to meet -/
+example : Guarded cfg0 10 [ev .L .dir "e" (some "/b"), .reload]
+    (run cfg0 10 [ev .L .dir "e" (some "/a"), ev .L .dir "f" (some "/a/b")] init) := by
+  refine ⟨fun pe h => ?_, ne_rec_of (by decide +kernel), trivial, ne_rec_of (by decide +kernel), trivial⟩
+  have h0 : (run cfg0 10 [ev .L .dir "e" (some "/a"), ev .L .dir "f" (some "/a/b")] init).lookupOid .L none = none := by decide +kernel
+  rw [h0] at h; cases h
 
 end CS.State
